@@ -64,6 +64,20 @@ func (check fieldConstraints) checkValue(v val.Value, t *meta.Type) error {
 			return err
 		}
 	}
+	if t.Format().Single() == val.FmtBinary {
+		// RFC 7950 Sec 9.8.3: the length of a binary value is counted in octets
+		var err error
+		val.ForEach(v, func(_ int, item val.Value) {
+			if b, valid := item.Value().([]byte); valid && err == nil {
+				for _, length := range t.Length() {
+					if length.CheckValue(val.Int32(len(b))) != nil {
+						err = fmt.Errorf("binary length %d outside allowed ranges", len(b))
+					}
+				}
+			}
+		})
+		return err
+	}
 	return nil
 }
 
